@@ -78,9 +78,43 @@ func (s StatementType) IsDDL() bool {
 
 //GetStatementCategory we can get statement type from a SQL
 func GetStatementCategory(sql string) StatementType {
+	// Comments in front of a statement are logged with it (tools tag their
+	// statements, mysqldump wraps DDL in version comments): they are not the
+	// statement. The content of a version comment /*!NNNNN ... */ is executed,
+	// so the keyword is looked for inside it.
+	for {
+		sql = strings.TrimLeft(sql, " \t\r\n")
+		if strings.HasPrefix(sql, "/*!") {
+			sql = strings.TrimLeft(sql[3:], "0123456789")
+			continue
+		}
+		if strings.HasPrefix(sql, "/*") {
+			i := strings.Index(sql[2:], "*/")
+			if i < 0 {
+				return StatementUnknown
+			}
+			sql = sql[2+i+2:]
+			continue
+		}
+		if strings.HasPrefix(sql, "#") || (len(sql) >= 3 && sql[:2] == "--" && strings.ContainsRune(" \t\r\n", rune(sql[2]))) {
+			i := strings.IndexByte(sql, '\n')
+			if i < 0 {
+				return StatementUnknown
+			}
+			sql = sql[i+1:]
+			continue
+		}
+		break
+	}
 	// statements are logged as the client wrote them: the keyword may be
-	// followed by a tab or a line break instead of a blank
+	// followed by a tab or a line break instead of a blank (or by the end of a
+	// version comment)
 	rest := ""
+	if i := strings.Index(sql, "*/"); i >= 0 {
+		if j := strings.IndexAny(sql, " \t\r\n"); j < 0 || i < j {
+			sql, rest = sql[:i], sql[i+2:]
+		}
+	}
 	if i := strings.IndexAny(sql, " \t\r\n"); i >= 0 {
 		sql, rest = sql[:i], sql[i+1:]
 	}
